@@ -80,6 +80,15 @@ class Compiler:
 
     @_compile.register
     def _select(self, node: ast.Select):
+        # The FROM clause sets the table the names are resolved against.
+        # Compiling a nested SELECT must not change it for the enclosing one.
+        table = self.table
+        try:
+            return self._compile_select(node)
+        finally:
+            self.table = table
+
+    def _compile_select(self, node):
 
         # Compile the FROM clause.
         c_from_expr = self._compile_from(node.from_clause)
